@@ -220,6 +220,8 @@ def weak_duality_rlt(ses, P, D, name, kind, sample):
     bp, bd = whole(P), whole(D)
     G1, H1, c1 = block_polys(P, bp, 'x')
     G2, H2, c2 = block_polys(D, bd, 'y')
+    if len(G1) * len(G2) + len(H1) * D.n + len(H2) * P.n > 6000:
+        return False            # the linearised system would be too large for exact simplex (z3 does not poll its timer there)
     pairs = [pairing_poly(a, b) for a, b in zip(c1, c2)]
     for (h1, t1), (h2, t2) in zip(block_socs(P, bp, 'x'), block_socs(D, bd, 'y')):
         dot = sum((a * b for a, b in zip(t1, t2)), Poly())
@@ -234,7 +236,8 @@ def weak_duality_rlt(ses, P, D, name, kind, sample):
     st.obligations += 1
     st.kinds[kind] = st.kinds.get(kind, 0) + 1
     st.twins += 1
-    r2, _ = ses.solve(lincs, timeout_ms=30000, tactic=('simplify', 'solve-eqs', 'smt'), label=name + '/weak-duality/rlt-twin')
+    r2, _ = (ses.solve_external if len(lincs) > 800 else ses.solve)(
+        lincs, timeout_ms=30000, tactic=('simplify', 'solve-eqs', 'smt'), label=name + '/weak-duality/rlt-twin')
     if r2 == 'sat':
         st.twins_ok += 1
     elif r2 == 'unsat':
@@ -338,11 +341,32 @@ def exp_witness(fp, fd, P, D):
 
 def ro_desc(name):
     def build():
-        from ..rogen import core_specs, desc_from_spec
+        from ..rogen import core_specs, expset_specs, desc_from_spec
         from ..models import RealRO
-        spec = [s for s in core_specs() if s['name'] == name][0]
+        spec = [s for s in core_specs() + expset_specs() if s['name'] == name][0]
         r = RealRO()
         desc_from_spec(spec)(r)
+        return r.m
+    return build
+
+
+def det_desc(name):
+    def build():
+        from .. import detgen
+        from ..models import RealRO
+        spec = [s for s in detgen.core_specs() if s['name'] == name][0]
+        r = RealRO(None, spec.get('front', 'ro'))
+        detgen.desc_from_spec(spec)(r)
+        return r.m
+    return build
+
+
+def dro_desc(name):
+    def build():
+        from ..drogen import lookup
+        from ..dromodels import RealDRO
+        r = RealDRO()
+        lookup(name)(r)
         return r.m
     return build
 
@@ -381,6 +405,20 @@ def cases(tier, seed, rnd):
         cs.append(dict(kind='ro', name='ro-' + nm, member=nm))
     for k in (EXP_QUICK if tier == 'quick' else EXP_ALL):
         cs.append(dict(kind='exp', name='exp%d' % k, k=k))
+    # every member of the ro core family, the dro families and the deterministic atom family as well
+    from ..rogen import core_specs, expset_specs
+    from ..drogen import members, kl_members
+    from .. import detgen
+    for sp_ in core_specs() + expset_specs():
+        if 'ro-' + sp_['name'] not in [c['name'] for c in cs] and not sp_.get('tol'):
+            cs.append(dict(kind='ro', name='ro-' + sp_['name'], member=sp_['name']))
+    for nm in list(members()) + list(kl_members()):
+        cs.append(dict(kind='dro', name='dro-' + nm, member=nm))
+    det = [sp_ for sp_ in detgen.core_specs() if sp_.get('front', 'ro') == 'ro' or tier != 'quick']
+    if tier == 'quick':
+        det = [sp_ for sp_ in det if sp_['form'] in ('le', 'obj', 'cons', 'bcast_scaled', 'tight_first', 'vector_y', 'var_r')]
+    for sp_ in det:
+        cs.append(dict(kind='det', name='det-' + sp_['name'], member=sp_['name']))
     return cs
 
 
@@ -391,6 +429,10 @@ def builder(case):
         return soc_desc(case['k'])
     if case['kind'] == 'exp':
         return exp_desc(case['k'])
+    if case['kind'] == 'det':
+        return det_desc(case['member'])
+    if case['kind'] == 'dro':
+        return dro_desc(case['member'])
     return ro_desc(case['member'])
 
 
@@ -405,8 +447,8 @@ def run_case(case, ses):
     D = CProg(fd, 'y')
     ses.stats.programs += 1
     if P.xmat or D.xmat or P.lmi:
-        if case['kind'] != 'exp':
-            ses.stats.notes.append('%s: exp/LMI blocks - outside the bound' % name)
+        if P.lmi:
+            ses.stats.notes.append('%s: LMI blocks - outside the bound' % name)
             return
         return run_exp(case, ses, m, fp, fd, P, D)
     xs = P.z3vars(relax=True)
